@@ -86,7 +86,7 @@ package characteristic
 //@   ensures isStrFormat(c.Format) ==> typeis(r, "string")
 //   a value that already has the representation type of the format is kept (github.com/xiam/to conversions are identities there)
 //@   ensures idFloat: c.Format == "float" && typeis(v, "float64") ==> asfloat(r) == asfloat(v)
-//@   ensures idInt: isIntFormat(c.Format) && typeis(v, "int") && asint(v) >= 0 && asint(v) <= 9223372036854775807 ==> asint(r) == asint(v)
+//@   ensures idInt: isIntFormat(c.Format) && typeis(v, "int") && asint(v) >= -9223372036854775808 && asint(v) <= 9223372036854775807 ==> asint(r) == asint(v)
 //@   ensures idBool: c.Format == "bool" && typeis(v, "bool") ==> asbool(r) == asbool(v)
 //@   ensures idStr: isStrFormat(c.Format) && typeis(v, "string") ==> asstr(r) == asstr(v)
 
@@ -116,7 +116,7 @@ package characteristic
 //@ func (c *Characteristic) updateValue(value, conn, checkPerms)
 //@   requires wellTyped(c) && finiteBounds(c)
 //@   modifies c.Value, when(hasCallbacks(c), heap), when(hasCallbacks(c), callcount)
-//@   ensures storedInt: old(stores(c, checkPerms)) && isIntFormat(c.Format) && typeis(value, "int") && asint(value) >= 0 && asint(value) <= 9223372036854775807 && old(intWithin(c, asint(value))) ==> typeis(c.Value, "int") && asint(c.Value) == asint(value)
+//@   ensures storedInt: old(stores(c, checkPerms)) && isIntFormat(c.Format) && typeis(value, "int") && asint(value) >= -9223372036854775808 && asint(value) <= 9223372036854775807 && old(intWithin(c, asint(value))) ==> typeis(c.Value, "int") && asint(c.Value) == asint(value)
 //@   ensures storedFloat: old(stores(c, checkPerms)) && c.Format == "float" && typeis(value, "float64") && !isnan(asfloat(value)) && !isinf(asfloat(value)) && old(floatWithin(c, asfloat(value))) ==> typeis(c.Value, "float64") && asfloat(c.Value) == asfloat(value)
 //@   ensures storedBool: old(stores(c, checkPerms)) && c.Format == "bool" && typeis(value, "bool") ==> typeis(c.Value, "bool") && asbool(c.Value) == asbool(value)
 //@   ensures storedStr: old(stores(c, checkPerms)) && isStrFormat(c.Format) && typeis(value, "string") ==> typeis(c.Value, "string") && asstr(c.Value) == asstr(value)
@@ -136,7 +136,7 @@ package characteristic
 //@   requires wellTyped(c) && finiteBounds(c)
 //@   modifies c.Value, when(hasCallbacks(c), heap), when(hasCallbacks(c), callcount)
 //@   ensures wellTyped(c) && finiteBounds(c) && sametype(c) && sameheap("func") && modelKept()
-//@   ensures storedInt: old(hasPerm(c.Perms, "pr")) && isIntFormat(c.Format) && typeis(value, "int") && asint(value) >= 0 && asint(value) <= 9223372036854775807 && old(intWithin(c, asint(value))) ==> typeis(c.Value, "int") && asint(c.Value) == asint(value)
+//@   ensures storedInt: old(hasPerm(c.Perms, "pr")) && isIntFormat(c.Format) && typeis(value, "int") && asint(value) >= -9223372036854775808 && asint(value) <= 9223372036854775807 && old(intWithin(c, asint(value))) ==> typeis(c.Value, "int") && asint(c.Value) == asint(value)
 //@   ensures storedFloat: old(hasPerm(c.Perms, "pr")) && c.Format == "float" && typeis(value, "float64") && !isnan(asfloat(value)) && !isinf(asfloat(value)) && old(floatWithin(c, asfloat(value))) ==> typeis(c.Value, "float64") && asfloat(c.Value) == asfloat(value)
 //@   ensures storedBool: old(hasPerm(c.Perms, "pr")) && c.Format == "bool" && typeis(value, "bool") ==> typeis(c.Value, "bool") && asbool(c.Value) == asbool(value)
 //@   ensures storedStr: old(hasPerm(c.Perms, "pr")) && isStrFormat(c.Format) && typeis(value, "string") ==> typeis(c.Value, "string") && asstr(c.Value) == asstr(value)
